@@ -479,6 +479,10 @@ class StateMachine(object):  # pylint: disable=too-many-public-methods
         """Send A-ABORT PDU (service-user source) and start (or restart)
         ARTIM timer.
         """
+        if self.current_state == States.STA_2:
+            # No association yet, so this is not a local user's A-ABORT request: the current
+            # primitive is the peer's unexpected PDU (or nothing at all for an invalid PDU).
+            self.primitive = pdu.AAbortPDU(source=0, reason_diag=0)
         self.dul_socket.sendall(self.primitive.encode())
         self.timer.restart()
         return States.STA_13
@@ -527,6 +531,7 @@ class StateMachine(object):  # pylint: disable=too-many-public-methods
 
     def aa_7(self):
         """Send A-ABORT PDU."""
+        self.primitive = pdu.AAbortPDU(source=2, reason_diag=0)
         self.dul_socket.sendall(self.primitive.encode())
         return States.STA_13
 
